@@ -16,7 +16,7 @@ META = {
     "technique": "CrossHair symbolic execution of compile_block/compile_file/compile_include/Deferred.length/SizedDeferred/Concatenator with "
                  "symbolic base, sizes and data; z3 decides label values and the per-statement address invariant against a reference size model",
     "bounds": "programs of 1..4 statements (+labels, +probe table) per file over 20 statement kinds (incl. '.'-dependent operands after an extension word and a .repeat body whose size depends on its address); sizes N, K in 0..4 (quick) / 0..6 (thorough) (lengths are realised), "
-              "defined before or after their use; '.link' at the start (eager evaluation) or at the end of the sources (base unknown while compiling: announced sizes drive the addresses); base: every value 0..65535 with base+length < 2^16; 1..3 linked files, include depth <= 2",
+              "defined before or after their use; '.link' at the start (eager evaluation) or at the end of the sources (base unknown while compiling: announced sizes drive the addresses); base: every value 0..65535 with base+length < 2^16; 1..3 linked files, include depth <= 3",
     "outside": ["programs longer than 4 statements per file", "sizes above 6", "the 21-program practice corpus (500-line programs are beyond the "
                 "tracing budget; not claimed)"],
     "structure": "quick: all single kinds and a seeded third of the ordered pairs in one file (thorough: all pairs) + multi-file/include placements; thorough: + seeded triples/quadruples",
@@ -26,7 +26,8 @@ META = {
 AUXDIR = os.path.join(BUILD, "aux", "c02")
 INSERT_BYTES = b"\x11\x22\x33"
 INC_TEXT = "IL: .word IL\n.byte 7\n"            # 3 bytes, word first: needs an even address
-INC2_TEXT = ".byte 4\n.include \"inc.mac\"\n"   # depth 2: 1 byte + inc.mac (which then sits on base+1 ... handled by parity rule)
+INC2_TEXT = ".byte 4\n.even\n.include \"inc.mac\"\nI2: .byte 5\n"   # depth 2: 1 byte, pad, inc.mac (3 bytes), 1 byte
+INC3_TEXT = "I3: .byte 6\n.include \"inc2.mac\"\n"                        # depth 3
 
 # kind -> (text template, size rule, needs even address?, symbolic vars used)
 #   size rule: int | "N" | "2N" | "K" | "even" | "odd" | "align4" | "repN"
@@ -56,6 +57,8 @@ KINDS = {
     "repvar":  (".repeat {NSYM} { .align 4\n .word .\n .byte 1, 2, 3 }", "repvar", True, ["N"]),
     "insert":  ("insert_file \"ins.bin\"", 3, False, []),
     "include": (".include \"inc.mac\"", 3, True, []),
+    "include2": (".include \"inc2.mac\"", "inc2", False, []),
+    "include3": (".include \"inc3.mac\"", "inc3", False, []),
 }
 ORDER = list(KINDS)
 
@@ -78,6 +81,10 @@ def size_of(kind, addr, vals):
         return (addr + 1) % 2
     if rule == "align4":
         return (-addr) % 4
+    if rule == "inc2":
+        return 1 + (addr + 1) % 2 + 3 + 1
+    if rule == "inc3":
+        return 1 + 1 + (addr + 2) % 2 + 3 + 1
     if rule == "repvar":
         a = addr
         for _ in range(vals["N"]):
@@ -127,6 +134,8 @@ def build_file(kinds, fileno, nplace, kplace):
 def setup_aux():
     write_aux_file("c02", "ins.bin", INSERT_BYTES)
     write_aux_file("c02", "inc.mac", INC_TEXT)
+    write_aux_file("c02", "inc2.mac", INC2_TEXT)
+    write_aux_file("c02", "inc3.mac", INC3_TEXT)
 
 
 def h_layout(params, vals, ctx):
